@@ -5,7 +5,7 @@
 From Coq Require Import String ZArith List Bool.
 Import ListNotations.
 From Verif Require Import Base.Out Base.PyValue Model.Dates Model.StrFuncs
-  Proofs.DatesProofs Proofs.DatesChecks Proofs.DatesTheorems Proofs.StrFuncsProofs.
+  Proofs.DatesProofs Proofs.DatesChecks Proofs.DatesTheorems Proofs.StrFuncsProofs Proofs.DecDivCheck.
 Open Scope Z_scope.
 Open Scope list_scope.
 
@@ -255,6 +255,16 @@ Proof.
   split; [exact safediv_zero|]. split; [exact safediv_int_zero|exact safediv_nonzero].
 Qed.
 Print Assumptions C18_abs_neg_round_safediv.
+
+(* safediv(x, y) = x / y correctly rounded to 28 digits (sign, at most 28 digits, within half a unit
+   in the last place, exact unless all 28 digits are used, exact results at the ideal exponent or
+   stripped of trailing zeros) for all x, y in a pool of 48 small decimals:
+   coefficients {0,1,2,3,5,6,7,9,12,25,64,999} x exponents {-1,2} x both signs *)
+Theorem C18_safediv_correctly_rounded : forall x y,
+  In x div_pool -> In y div_pool -> dcoef y <> 0 ->
+  exists r, f_safediv x y = VDec r /\ div_ok x y r = true.
+Proof. exact safediv_correctly_rounded. Qed.
+Print Assumptions C18_safediv_correctly_rounded.
 
 (* ---------------- casts ---------------- *)
 (* every cast returns a value of the target type or NULL, never an error *)
